@@ -614,4 +614,87 @@ theorem insertNames_nodup (gid : Nat) : ∀ (names : List String) (map : List (S
       simp only [List.mem_singleton] at hb
       subst hab; subst hb; exact hr ha
 
+theorem nodup_of_map {α β : Type} (f : α → β) : ∀ (l : List α), (l.map f).Nodup → l.Nodup := by
+  intro l
+  induction l with
+  | nil => intro _; exact List.nodup_nil
+  | cons a l ih =>
+    intro h
+    simp only [List.map_cons, List.nodup_cons] at h ⊢
+    exact ⟨fun ha => h.1 (List.mem_map.mpr ⟨a, ha, rfl⟩), ih h.2⟩
+
+theorem withChain_wf (g : Graph) (hg : g.nodes.Nodup ∧ ∀ e ∈ g.edges, e.1 ∈ g.nodes ∧ e.2 ∈ g.nodes) (o : List Nat)
+    (ho : ∀ v ∈ o, v ∈ g.nodes) :
+    (withChain g o).nodes.Nodup ∧ ∀ e ∈ (withChain g o).edges, e.1 ∈ (withChain g o).nodes ∧ e.2 ∈ (withChain g o).nodes := by
+  refine ⟨hg.1, fun e he => ?_⟩
+  simp only [withChain, List.mem_append] at he
+  rcases he with h | h
+  · exact hg.2 e h
+  · have := chain_mem o e h
+    exact ⟨ho _ this.1, ho _ this.2⟩
+
+
+/-! ## the registration services -/
+
+theorem liftRm_ok {s s' : Sim} {r : Except (Err × Manager) Manager} (h : liftRm s r = .ok s') :
+    ∃ m, r = .ok m ∧ s' = { s with rm := m } := by
+  unfold liftRm at h
+  split at h
+  · cases h; exact ⟨_, rfl, rfl⟩
+  · cases h
+
+theorem mem_enumFrom {α : Type} : ∀ (l : List α) (n k : Nat) (a : α), l[k]? = some a → (n + k, a) ∈ enumFrom n l := by
+  intro l
+  induction l with
+  | nil => intro n k a h; simp at h
+  | cons x xs ih =>
+    intro n k a h
+    cases k with
+    | zero => simp only [List.getElem?_cons_zero, Option.some.injEq] at h; simp [enumFrom, h]
+    | succ k =>
+      simp only [List.getElem?_cons_succ] at h
+      have := ih (n + 1) k a h
+      simp only [enumFrom, List.mem_cons]
+      right
+      have e : n + (k + 1) = n + 1 + k := by omega
+      rw [e]; exact this
+
+theorem findPipe_touch (s : Sim) (key : String) : ∃ p, findPipe (touchPipe s key) key = some p ∧ p.key = key := by
+  unfold touchPipe
+  cases hf : findPipe s key with
+  | some p =>
+    simp only [Option.isSome_some, if_true]
+    refine ⟨p, hf, ?_⟩
+    have := List.find?_some hf
+    simpa using this
+  | none =>
+    simp only [Option.isSome_none, Bool.false_eq_true, if_false]
+    refine ⟨{ key := key }, ?_, rfl⟩
+    simp only [findPipe] at hf ⊢
+    rw [List.find?_append, hf]
+    simp
+
+theorem find_map_update (key : String) (f : Pipe → Pipe) (hf : ∀ p, (f p).key = p.key) :
+    ∀ (l : List Pipe) (p : Pipe), l.find? (·.key == key) = some p →
+      (l.map (fun q => if q.key == key then f q else q)).find? (·.key == key) = some (f p) := by
+  intro l
+  induction l with
+  | nil => intro p h; simp at h
+  | cons q qs ih =>
+    intro p h
+    simp only [List.map_cons, List.find?_cons] at h ⊢
+    by_cases hq : (q.key == key) = true
+    · simp only [hq, if_true] at h ⊢
+      cases h
+      have : ((f q).key == key) = true := by rw [hf]; exact hq
+      simp [this]
+    · have hq' : (q.key == key) = false := by simpa using hq
+      simp only [hq'] at h ⊢
+      simpa [hq'] using ih p h
+
+theorem findPipe_update (s : Sim) (key : String) (f : Pipe → Pipe) (hf : ∀ p, (f p).key = p.key) (p : Pipe)
+    (h : findPipe s key = some p) : findPipe (updatePipe s key f) key = some (f p) :=
+  find_map_update key f hf s.pipes p h
+
+
 end Viv.Topo
